@@ -145,9 +145,11 @@ def build(inst):
         elif k == 'tuple':
             b.names[n] = [str(i) for i in range(len(ch))]
         elif k == 'dict':
-            for i, c in enumerate(ch):
-                b.objs[n]['k%d' % i] = c
-            b.names[n] = ['k%d' % i for i in range(len(ch))]
+            # keys of different types whose TEXT is equal (0 and '0', 2 and '2'): different keys, one entry each
+            keys = [(i if i % 2 == 0 else str(i - 1)) for i in range(len(ch))]
+            for key, c in zip(keys, ch):
+                b.objs[n][key] = c
+            b.names[n] = [str(key) for key in keys]
         elif k in ('obj', 'proxy', 'sobj'):
             for i, c in enumerate(ch):
                 setattr(b.objs[n], 'a%d' % i, c)
